@@ -416,11 +416,14 @@ package xpath
 //@   nopanic
 //@   ensures len(toppath(ctx).Elem) == old(len(toppath(ctx).Elem)) + 1 && lastElem(toppath(ctx)).Name == ".." && isfresh(lastElem(toppath(ctx)))
 //@   ensures forall(i, 0, len(toppath(ctx).Elem)-1, toppath(ctx).Elem[i] == old(toppath(ctx).Elem[i]))
+// '/' at the start of a path: the path is absolute - it starts at the root and has no step yet, whatever the path on
+// top of the stack held before (inside a predicate it is a copy of the enclosing path).
 //@ func (*ProgBuilder).CodePathOper$2
 //@   requires ctx != nil && pathWF(ctx)
 //@   modifies toppath(ctx).IsRootBased
+//@   modifies toppath(ctx).Elem
 //@   nopanic
-//@   ensures toppath(ctx).IsRootBased
+//@   ensures toppath(ctx).IsRootBased && len(toppath(ctx).Elem) == 0
 
 // Predicates: [k = v] pairs are collected in a map (so their order is irrelevant by construction) and
 // attached as keys to the step they follow when the predicate list ends.
